@@ -53,7 +53,7 @@ def sliceLength (start stop step : Int) : Nat :=
 def indices (length : Nat) (start stop : Option Int) (step : Int) : List Int :=
   let s := adjStart length step start
   let e := adjStop length step stop
-  (List.range (sliceLength s e step)).map fun k => s + (k : Int) * step
+  (List.range (sliceLength s e step)).map fun (k : Nat) => s + (k : Int) * step
 
 /-- `items[start:stop:step]`; `none` stands for `ValueError: slice step cannot be zero`. -/
 def select {α : Type} (items : List α) (start stop step : Option Int) : Option (List α) :=
